@@ -81,8 +81,11 @@ def pick_off(rnd):
     return -1 if r < 0.03 else rnd.choice([0, 0, 0, 1, 2])
 
 
+DIMS = [0, 1, 2, 2, 3, 3]
+
+
 def pick_dim(rnd):
-    return rnd.choice([0, 1, 2, 2, 3, 3])
+    return rnd.choice(DIMS)
 
 
 def flag(rnd, good, bad="X"):
